@@ -1,7 +1,8 @@
 """C01 - lazy cache coherence: heap contracts on _reset / set_value (pycel.excelcompiler)."""
-from pyvc.heapspec import (cached, cell_at, computed, forall_nodes, has_formula, holds_f, in_done, in_map, is_range, old_cached,
+from pyvc.heapspec import (cached, cell_at, computed, forall_nodes, has_formula, holds_f, in_done, in_map, is_range, is_unbounded,
+                           old_cached,
                            reads, same_node, same_value, succ, value_is)
-from pyvc.spec import (Const, Contract, HeapCell, HeapCompiler, Lemma, NoneT, OpaqueV, Str, Union,
+from pyvc.spec import (ERROR_CODES, Const, Contract, HeapCell, HeapCompiler, Lemma, NoneT, OpaqueV, Str, Union,
                        implies)
 
 SYMBOLIC_TWINS = {}
@@ -69,9 +70,10 @@ CONTRACTS = [
 # -- set_value(address, value) on an input cell: re-establishes the invariant Local -------------------------
 
 def local_precedents_cached():
-    """Local(i): every cached computed node has all its read-precedents cached"""
+    """Local(i): every cached computed node has all its COMPUTED read-precedents cached (a constant that is blank holds
+    None without being un-cached: there is nothing to compute, and _reset starts from the cell that is set)"""
     return forall_nodes(lambda d: implies(cached(d) and computed(d),
-                                          forall_nodes(lambda p: implies(reads(p, d), cached(p)))))
+                                          forall_nodes(lambda p: implies(reads(p, d) and computed(p), cached(p)))))
 
 
 def local_values_are_f():
@@ -137,9 +139,18 @@ def no_self_reads():
     return forall_nodes(lambda m: not reads(m, m))
 
 
+def graph_shape():
+    """structure of the model: only computed nodes (formula cells, ranges) read anything; the members of a range are
+    cells, not unbounded references"""
+    return forall_nodes(lambda d: forall_nodes(lambda p: implies(reads(p, d), computed(d) and implies(is_range(d),
+                                                                                                 not is_unbounded(p)))))
+
+
 def pre_evaluate(self, address):
-    return (in_map(address) and local_precedents_cached() and local_values_are_f() and computed_iff_formula_or_range()
-            and no_self_reads())
+    """(an unbounded reference - A:A - is a cell whose formula names the bounded range: a computed reference, outside
+    this contract)"""
+    return (in_map(address) and not is_unbounded(cell_at(address)) and local_precedents_cached() and local_values_are_f()
+            and computed_iff_formula_or_range() and no_self_reads() and graph_shape())
 
 
 def ev_returns_the_cell_value(self, address, result):
@@ -165,6 +176,13 @@ def ev_computed_cell_is_cached_and_is_f(self, address, result):
     return implies(computed(c), cached(c) and holds_f(c))
 
 
+def ev_no_dependant_newly_cached(self, address, result):
+    """evaluating a cell computes none of the nodes that read it (they need its value first: Local(i) while it is
+    un-cached, and the model is acyclic)"""
+    c = cell_at(address)
+    return forall_nodes(lambda d: implies(reads(c, d) and cached(d), old_cached(d)))
+
+
 # what holds across the nested evaluations a formula makes (the same clauses, used as induction hypothesis)
 def evf_keeps_cached_values(self, address):
     return forall_nodes(lambda m: implies(old_cached(m), same_value(m)))
@@ -184,21 +202,90 @@ def er_post(self, address, result):
             and local_values_are_f() and cached(c) and holds_f(c))
 
 
-ASSUMED = [
-    Contract(EVALUATE_RANGE, 'C01', heap=True, params=dict(self=HeapCompiler(cycles=False), address=Str()),
-             ensures=[er_post], returns=OpaqueV(), klass='BOUNDED',
-             notes='range value = tuple of member evaluations / CSE evaluation: nested generator expressions over '
-                   'resolve_range; used by _evaluate through this contract (same frame as _evaluate itself)'),
-]
+def pre_evaluate_range(self, address):
+    """a range node of the model that is neither an unbounded reference (its value is that of the bounded range its
+    formula names: a computed reference) nor unknown to the model"""
+    c = cell_at(address)
+    return (in_map(address) and address not in ERROR_CODES and is_range(c) and not is_unbounded(c)
+            and graph_shape() and local_precedents_cached() and local_values_are_f() and computed_iff_formula_or_range() and no_self_reads())
+
+
+def er_returns_the_range_value(self, address, result):
+    return value_is(cell_at(address), result)
+
+
+def er_keeps_cached_values(self, address, result):
+    return forall_nodes(lambda m: implies(old_cached(m), same_value(m)))
+
+
+def er_keeps_local_i(self, address, result):
+    return local_precedents_cached()
+
+
+def er_keeps_local_ii(self, address, result):
+    return local_values_are_f()
+
+
+def er_range_is_cached_and_is_f(self, address, result):
+    c = cell_at(address)
+    return cached(c) and holds_f(c)
+
+
+# the comprehension over the members of the range (key 'members'): done = members already evaluated
+def mem_keeps_cached_values(self, address):
+    return forall_nodes(lambda m: implies(old_cached(m), same_value(m)))
+
+
+def mem_keeps_local_i(self, address):
+    return local_precedents_cached()
+
+
+def mem_keeps_local_ii(self, address):
+    return local_values_are_f()
+
+
+def mem_done_are_cached_or_blank_constants(self, address):
+    """a member that was evaluated holds a value, unless it is a constant cell that is blank"""
+    return forall_nodes(lambda p: implies(in_done(p) and computed(p), cached(p)))
+
+
+def mem_range_still_uncached(self, address):
+    return not cached(cell_at(address))
+
+
+EV_FRAME = [evf_keeps_cached_values, evf_keeps_local_i, evf_keeps_local_ii]
+
+# _evaluate as used by _evaluate_range (same clauses as its own contract; mutual recursion, partial correctness)
+EVALUATE_FOR_RANGE = Contract(EVALUATE, 'C01', heap=True, params=dict(self=HeapCompiler(cycles=False), address=Str()),
+                              requires=[pre_evaluate],
+                              ensures=[ev_returns_the_cell_value, ev_keeps_cached_values, ev_keeps_local_i, ev_keeps_local_ii,
+                                       ev_computed_cell_is_cached_and_is_f, ev_no_dependant_newly_cached],
+                              returns=OpaqueV(allow_none=True), modifies=('value',), name='ExcelCompiler._evaluate[contract]')
+
+ASSUMED = []
+
+EVALUATE_RANGE_CONTRACT = Contract(
+    EVALUATE_RANGE, 'C01', heap=True, modular=[EVALUATE_FOR_RANGE], modifies=('value',),
+    params=dict(self=HeapCompiler(cycles=False, evaluating=EV_FRAME), address=Str()),
+    requires=[pre_evaluate_range],
+    ensures=[er_returns_the_range_value, er_keeps_cached_values, er_keeps_local_i, er_keeps_local_ii,
+             er_range_is_cached_and_is_f, ev_no_dependant_newly_cached],
+    returns=OpaqueV(),
+    invariants={'members': [mem_keeps_cached_values, mem_keeps_local_i, mem_keeps_local_ii,
+                            mem_done_are_cached_or_blank_constants, mem_range_still_uncached]},
+    notes='formula-less range: every member is evaluated (comprehension cut at invariants), the table of their values is '
+          'F(range, values) by definition; CSE range: the array formula is evaluated like a cell formula; unbounded '
+          'references are excluded (computed reference)')
+CONTRACTS.append(EVALUATE_RANGE_CONTRACT)
 
 CONTRACTS.append(
-    Contract(EVALUATE, 'C01', heap=True, modular=[EVALUATE_RANGE],
+    Contract(EVALUATE, 'C01', heap=True, modular=[EVALUATE_RANGE], modifies=('value',),
              params=dict(self=HeapCompiler(cycles=False, evaluating=[evf_keeps_cached_values, evf_keeps_local_i,
                                                                     evf_keeps_local_ii]),
                          address=Str()),
              requires=[pre_evaluate],
              ensures=[ev_returns_the_cell_value, ev_keeps_cached_values, ev_keeps_local_i, ev_keeps_local_ii,
-                      ev_computed_cell_is_cached_and_is_f],
+                      ev_computed_cell_is_cached_and_is_f, ev_no_dependant_newly_cached],
              notes='nested evaluations made by the compiled formula are covered by the frame clauses of this very '
                    'contract (induction on recursion depth; acyclic model)'))
 
@@ -307,10 +394,12 @@ EXPLANATION = ('Mixed. PROVED (SMT over an uninterpreted heap: value : Node -> V
                'cell writes exactly the given value (0 / FALSE and 1 / TRUE are different, blank included), changes no other '
                'cached value, and re-establishes the invariant Local = (every cached computed node has cached read-precedents, '
                'and its value is F(node, current values)) from which "cached => from-scratch value" follows by induction on '
-               'the graph rank; ExcelCompiler._evaluate keeps every cached value and Local and leaves a computed cell cached '
-               'with value = F(cell, values) - the nested evaluations its formula makes are covered by the frame clauses of the '
-               'same contract (induction on recursion depth; A-EVAL, A-ACYCLIC), range nodes through an assumed contract of '
-               '_evaluate_range. BOUNDED (native): graph construction and the whole evaluate path - '
+               'the graph rank; ExcelCompiler._evaluate and ExcelCompiler._evaluate_range (mutually modular) keep every cached '
+               'value and Local, compute none of the nodes that read the evaluated one, and leave a computed cell / a range '
+               'cached with value = F(node, values) - the nested evaluations a formula makes are covered by the frame clauses of '
+               'the same contracts (induction on recursion depth; A-EVAL, A-ACYCLIC); the members of a formula-less range are '
+               'evaluated by a comprehension cut at invariants (A-RANGE-F: the table of member values is F(range, values) by '
+               'definition). BOUNDED (native): graph construction, unbounded references and the whole evaluate path - '
                'random histories on small workbooks from every origin against a from-scratch compile, with the same '
                'contracts evaluated on the real heap after every set_value / _reset.')
 ASSUMPTIONS = ['A-SUBSET', 'A-NX (networkx DiGraph as node set + edge relation)',
